@@ -98,6 +98,9 @@ class Gen:
                 k.append('str_table')
             if d['sec_sizes'].get('debug_line_str_sec'):
                 k.append('linestr')
+            if d['sec_sizes'].get('debug_addr_sec'):
+                k.append('addr_get')
+            k.append('dw_flags')
             if d['loc_kind'] and d['loc_kind'] != 'NoneType':
                 k += ['loc_iter', 'loc_attr']
                 if any(m['loc_attrs'] for m in d['unit_meta']):
@@ -602,6 +605,14 @@ class Gen:
         if kind == 'linestr':
             n = d['sec_sizes']['debug_line_str_sec']
             return [kind, r.choice([0, n - 1, r.randrange(n)])]
+        if kind == 'dw_flags':
+            return [kind]
+        if kind == 'addr_get':
+            m = self._unit()
+            if not m:
+                return None
+            n = d['sec_sizes']['debug_addr_sec'] // 4
+            return [kind, m['off'], r.choice([0, 1, r.randrange(n + 1), r.randrange(n + 1), n + 3])]
         if kind == 'lineprog_seq':
             offs = [m['off'] for m in d['unit_meta']]
             return [kind, [r.choice(offs) for _ in range(r.randrange(1, 4))]]
